@@ -30,7 +30,10 @@ LEVEL_TEXT = (
     "separable sum; conj_prox returns the prox of the Fenchel conjugate for convex f; x is the prox of alpha*||Ax-y||^2_W iff it "
     "solves (I+2 alpha lam A^H W A)x = v+2 alpha lam A^H W y, and the diagonal closed form solves it entrywise (real and complex); "
     "flag logic: a False flag raises, a truthful True flag gives a value of the right shape which is a proximal point of the "
-    "denoted functional (given C02 for the leaves). The model is tied to scico by evaluating flags, f(x), prox, conj_prox of "
+    "denoted functional (given C02 for the leaves), also for trees containing SquaredL2Loss nodes with Identity/Diagonal A; "
+    "without any sign hypothesis the returned value is proximal as soon as the base proxes are sound at the parameters they "
+    "receive; negation witness for a Loss with non-positive scale (flag set, value not proximal). "
+    "The model is tied to scico by evaluating flags, f(x), prox, conj_prox of "
     "random nestings (depth<=3/4) on the real objects, by the leaf-call plan oracle, and by the residual of the documented "
     "system at SquaredL2Loss.prox for diagonal / non-diagonal, real / complex A."
 )
@@ -39,8 +42,11 @@ LEVEL_NOTE = (
     "hand-written model is tied to the code by differential testing only (distribution in the evidence). Base functionals' "
     "prox maps are hypotheses here (property C02). CG convergence is not proved: the non-diagonal path is checked through the "
     "residual of the proved system at the configured tolerance. Soundness of a set has_prox flag assumes positive scales of "
-    "generic Loss objects (the flag does not look at Loss.scale); a ScaledFunctional with non-positive scale clears the flag "
-    "but still forwards prox. Findings repaired in /repo: 1a0aadd (Loss flags), 689de28 (non-positive scale)."
+    "generic Loss objects (the flag does not look at Loss.scale: known finding loss-nonpositive-scale, recorded with "
+    "fixes/loss-nonpositive-scale.patch, Lean negation witness C08_loss_nonpositive_counterexample); a ScaledFunctional with "
+    "non-positive scale clears the flag but still forwards prox. SeparableFunctional applied to a plain array whose ndim "
+    "equals the number of functionals iterates over the leading axis (outside the documented domain, not modelled). "
+    "Findings repaired in /repo: 1a0aadd (Loss flags), 689de28 (non-positive scale)."
 )
 PROP_MODULES = ["Scico.Props.C08"]
 EXTRA_TARGETS = ["Drv.ProxCalc"]
@@ -53,7 +59,10 @@ RULE = (
     "and block arguments, dyadic data; a boundary stream adds non-positive scales, block-count mismatches, v=0 and ties. A "
     "tree case is non-trivial when it has at least one wrapper; distinct by constructor skeleton x dtype x block-ness. "
     "sqL2 cases: SquaredL2Loss.prox for Identity / ScaledIdentity / Diagonal / MatrixOperator / FiniteDifference A, real and "
-    "complex, weights with zeros; distinct by (A kind, dtype, weights, shape)."
+    "complex, weights with zeros; distinct by (A kind, dtype, weights, shape). Round 2: generic Loss with explicit Identity / "
+    "ScaledIdentity / Diagonal / Matrix / non-linear forward operators; block SquaredL2Loss nodes; c*L and L/c checked for "
+    "purity (operand evaluated before/after); plain 1-D array to a SeparableFunctional; constructor rejection of negative / "
+    "non-Diagonal weights."
 )
 ASSUMPTIONS = [
     "base functionals: their prox maps are proximal maps (property C02) - hypothesis LeafSound of C08_tree_sound",
@@ -649,6 +658,96 @@ def run_sql2_case(ctx, model, scico, case, oracle):
                          oracle=oracle, note=f"after {how} by {c_}")
 
 
+def run_loss_flags(ctx, model, scico):
+    """capability flags of the derived loss classes x forward-operator classes x sign of y: model rule `lossClsFlags`
+    against the constructors; truthfulness on the code: flag False <=> prox raises NotImplementedError, flag True => value of
+    the shape of v (that the value is the prox is C02 for the absolute-value losses, C08_sqL2_* for SquaredL2Loss)"""
+    import scico.numpy as snp
+    from scico import linop, loss, operator
+
+    rng = ctx.rng
+    classes = {"sql2": loss.SquaredL2Loss, "sql2abs": loss.SquaredL2AbsLoss, "sql2sqabs": loss.SquaredL2SquaredAbsLoss,
+               "poisson": loss.PoissonLoss, "generic": loss.Loss}
+    for _ in range(ctx.n(60, 400)):
+        cname = list(classes)[int(rng.integers(len(classes)))]
+        acls = ["default", "identity", "sid", "diag", "linear", "nonlinear"][int(rng.integers(6))]
+        n = int(rng.integers(1, 5))
+        dt = np.float64
+        y = np.abs(common.dyadic(rng, (n,), bits=2, scale=3.0)) + (0.0 if rng.random() < 0.5 else 0.25)
+        yneg = bool(rng.random() < 0.35)
+        if yneg:
+            y[int(rng.integers(n))] = -0.5
+        if acls == "default":
+            A = None
+        elif acls == "identity":
+            A = linop.Identity((n,), input_dtype=dt)
+        elif acls == "sid":
+            A = linop.ScaledIdentity(float(rng.choice([0.5, 1.0, 2.0])), (n,), input_dtype=dt)
+        elif acls == "diag":
+            A = linop.Diagonal(snp.array(np.abs(common.dyadic(rng, (n,), bits=1, scale=2.0)) + 0.5), input_dtype=dt)
+        elif acls == "linear":
+            A = linop.MatrixOperator(snp.array(np.abs(common.dyadic(rng, (n, n), bits=1, scale=2.0)) + 0.25), input_cols=0)
+        else:
+            A = operator.Operator(input_shape=(n,), output_shape=(n,), eval_fn=lambda x: x * x + 1.0, input_dtype=dt)
+        L = classes[cname](y=snp.array(y), A=A)
+        mA = {"default": "identity", "identity": "identity", "sid": "sid", "diag": "diag", "linear": "linear", "nonlinear": "nonlinear"}[acls]
+        r = model.call("lossflags", cls=cname, A=mA, ynonneg=not yneg)
+        impl_flags = (bool(L.has_eval), bool(L.has_prox))
+        case = {"lossflags": cname, "A": acls, "y": y.tolist()}
+        ctx.case({"lossflags": cname, "A": acls, "yneg": yneg}, ("lossflags", cname, acls, yneg))
+        ctx.count(f"lossflags:{cname}:{acls}:has_prox={impl_flags[1]}")
+        v = snp.array(np.abs(common.dyadic(rng, (n,), bits=2, scale=3.0)) + 0.25)
+        pr = _impl(lambda: np.asarray(L.prox(v, 0.5)))
+        ev = _impl(lambda: float(L(v)))
+
+        def oracle(_c, impl_flags=impl_flags, pr=pr, ev=ev):
+            if impl_flags[1] and pr[0] == "err":
+                return {"what": "has_prox is True but prox raises", "kind": pr[1], "v": np.asarray(v).tolist()}
+            if not impl_flags[1] and pr[0] == "ok":
+                return {"what": "has_prox is False but prox returns a value", "v": np.asarray(v).tolist()}
+            if impl_flags[0] != (ev[0] == "ok"):
+                return {"what": "has_eval does not tell whether __call__ works", "has_eval": impl_flags[0], "call": list(ev)[:1]}
+            return None
+
+        if impl_flags != (r["he"], r["hp"]):
+            ctx.disagree("loss.flags", case, list(impl_flags), [r["he"], r["hp"]], oracle=oracle)
+        elif oracle(None) is not None:
+            ctx.disagree("loss.flags.truthful", case, [list(impl_flags), pr[0], ev[0]], "flags truthful", oracle=oracle)
+        elif pr[0] == "ok" and np.asarray(pr[1]).shape != (n,):
+            ctx.disagree("loss.flags.shape", case, list(np.asarray(pr[1]).shape), [n])
+
+
+def run_sql2_ctor(ctx, scico):
+    """the hypothesis `W >= 0` of the SquaredL2Loss theorems is what the constructors enforce: a negative weight is
+    rejected with ValueError, a weighting that is not a linop.Diagonal with TypeError (all three weighted losses)"""
+    import scico.numpy as snp
+    from scico import linop, loss
+
+    rng = ctx.rng
+    classes = [loss.SquaredL2Loss, loss.SquaredL2AbsLoss, loss.SquaredL2SquaredAbsLoss]
+    for _ in range(ctx.n(12, 60)):
+        cls = classes[int(rng.integers(3))]
+        n = int(rng.integers(1, 5))
+        y = snp.array(np.abs(common.dyadic(rng, (n,), bits=2, scale=3.0)))
+        w = rng.integers(0, 5, size=n).astype(np.float64) / 2
+        mode = ["negative", "zero-ok", "not-diagonal"][int(rng.integers(3))]
+        if mode == "negative":
+            w[int(rng.integers(n))] = -0.25
+            W, want = linop.Diagonal(snp.array(w), input_dtype=np.float64), ("err", "value")
+        elif mode == "zero-ok":
+            w[int(rng.integers(n))] = 0.0
+            W, want = linop.Diagonal(snp.array(w), input_dtype=np.float64), ("ok",)
+        else:
+            W, want = linop.MatrixOperator(snp.array(np.diag(w)), input_cols=0), ("err", "type")
+        got = _impl(lambda: cls(y=y, W=W))
+        got = (got[0],) if got[0] == "ok" else got
+        ctx.case({"sql2ctor": cls.__name__, "mode": mode, "n": n}, ("sql2ctor", cls.__name__, mode))
+        ctx.count(f"sql2ctor:{mode}:{got[0] if got[0] == 'ok' else got[1]}")
+        if got != want:
+            ctx.disagree("sql2.ctor", {"class": cls.__name__, "mode": mode, "w": w.tolist()}, list(got), list(want),
+                         oracle=lambda _c, cls=cls, w=w, got=got: ({"what": f"{cls.__name__} accepted W.diagonal = {w.tolist()} (documented: must be non-negative / a linop.Diagonal)"} if got[0] == "ok" else None))
+
+
 # --------------------------------------------------------------------------
 # Moreau with an independent conjugate
 
@@ -736,6 +835,8 @@ def correspond(ctx, model):
         case["v"] = G.random_arg_json(ctx.rng, shape, case["cplx"])
         case["lam"] = f2b(G.pos_dyadic(ctx.rng))
         run_tree_case(ctx, model, scico, case, oracle, "rescale-chain")
+    run_sql2_ctor(ctx, scico)
+    run_loss_flags(ctx, model, scico)
     run_moreau(ctx, scico)
 
 
